@@ -676,3 +676,131 @@ func j4SameLoad(x, y ssa.Value, from, to ssa.Instruction) bool {
 	}
 	return true
 }
+
+// ---- round 5: the header lines Header.Write writes, through the code it runs ---------------------------
+
+// j5Line is one `fmt.Fprintf(w, format, key?, value...)` to the writer of Header.Write (hw), made
+// by hw itself or by same-package code it runs (i2Walk: functions, methods, local closures, method
+// values), seen from ONE chain of calls: the parameters of the helper are bound to the arguments of
+// those very calls. A helper `line(w, key, value)` called at two places yields two lines.
+type j5Line struct {
+	call    ssa.CallInstruction // the fmt.Fprintf
+	chain   i2Chain             // the calls from hw down to the function of call (empty: hw itself)
+	site    ssa.CallInstruction // the instruction of hw that makes the line happen (call, or the first call of chain)
+	raw     string              // the constant format of the Fprintf ("" when it is not constant)
+	format  string              // the format with a leading %s/%v of a constant key folded in: "Mid: %s\r\n"
+	folded  bool                // the key was a constant (bound at this chain) and is part of format
+	key     ssa.Value           // the first operand as a value of hw (nil: folded, none, or not expressible in hw's terms)
+	noArgs  bool                // the Fprintf has no operands (a constant line)
+	badArgs bool                // the operands cannot be enumerated, or the key is not a value of hw
+}
+
+// j5Lines lists the lines of hw (whose second parameter is the writer) in walk order.
+func j5Lines(hw *ssa.Function) []*j5Line {
+	var out []*j5Line
+	i2Walk(hw, func(in ssa.Instruction, chain i2Chain) {
+		ci, ok := in.(ssa.CallInstruction)
+		if !ok || callName(ci.Common()) != "fmt.Fprintf" || len(ci.Common().Args) != 3 {
+			return
+		}
+		// the writer must be hw's own, handed down through the chain: a parameter of hw or a value hw
+		// derives from one (bufio.NewWriter(w)); a global (io.Discard) or a writer the helper makes is
+		// not the header's output
+		w, ch := i2Up(ci.Common().Args[0], chain)
+		if len(ch) != 0 || !dependsOn(w, func(x ssa.Value) bool {
+			p, isParam := x.(*ssa.Parameter)
+			return isParam && p.Parent() == hw
+		}) {
+			return
+		}
+		l := &j5Line{call: ci, chain: chain, site: ci}
+		if len(chain) > 0 {
+			l.site = chain[0].site
+		}
+		l.raw, _ = i2ConstString(ci.Common().Args[1], chain)
+		l.format = l.raw
+		out = append(out, l)
+		if isNilConst(ci.Common().Args[2]) {
+			l.noArgs = true
+			return
+		}
+		args, ok := variadicArgs(ci.Common().Args[2])
+		if !ok || len(args) == 0 {
+			l.badArgs = true
+			return
+		}
+		k := unwrap(args[0])
+		if s, isC := i2ConstString(k, chain); isC && (strings.HasPrefix(l.raw, "%s") || strings.HasPrefix(l.raw, "%v")) {
+			l.format, l.folded = s+l.raw[2:], true
+			return
+		}
+		v, ch := i2Up(k, chain)
+		if len(ch) != 0 {
+			l.badArgs = true
+			return
+		}
+		l.key = v
+	})
+	return out
+}
+
+// j5First: the line that is written before every other one: its site in hw dominates the site of
+// each of them (two lines behind one site are not ordered by this: nil).
+func j5First(lines []*j5Line) *j5Line {
+	for _, f := range lines {
+		first := true
+		for _, o := range lines {
+			if o != f && (o.site == f.site || !instrDominates(f.site, o.site)) {
+				first = false
+			}
+		}
+		if first {
+			return f
+		}
+	}
+	return nil
+}
+
+// j5ValuesRanged: the innermost `for .. range x` loop around the line - in the function of the
+// Fprintf, or around one of the calls that lead to it - ranges over hw's own header map indexed by
+// a key: x, rewritten into hw's terms, is h[..] with h the receiver of hw (the lookup may be made in
+// a helper that was handed h, or in hw and handed to the helper).
+func j5ValuesRanged(hw *ssa.Function, l *j5Line) bool {
+	blk := l.call.Block()
+	for i := len(l.chain); i >= 0; i-- {
+		if x, _ := rangedSlice(blk); x != nil {
+			v, ch := i2Up(x, l.chain[:i])
+			lk, ok := v.(*ssa.Lookup)
+			if !ok {
+				return false
+			}
+			m, ch2 := i2Up(lk.X, ch)
+			return len(ch2) == 0 && sameSlotValue(m, hw.Params[0])
+		}
+		if i > 0 {
+			blk = l.chain[i-1].site.Block()
+		}
+	}
+	return false
+}
+
+// j5MayOutput: the call writes output, itself (a writer call, a Write* method of an interface) or
+// somewhere in the same-package code it runs.
+func j5MayOutput(ci ssa.CallInstruction, depth int, busy map[*ssa.Function]bool) bool {
+	com := ci.Common()
+	if writerCalls[callName(com)] || (com.IsInvoke() && strings.HasPrefix(com.Method.Name(), "Write")) {
+		return true
+	}
+	h := i2Callee(ci)
+	if h == nil || busy[h] || depth >= i2MaxDepth {
+		return false
+	}
+	busy[h] = true
+	defer delete(busy, h)
+	for _, x := range allCalls(h) {
+		if j5MayOutput(x, depth+1, busy) {
+			return true
+		}
+	}
+	return false
+}
